@@ -226,11 +226,11 @@ variable {N : Type} (ops : NumOps N)
 
 /-- fuel `2·|rest| + 3` (values) / `2·|rest| + 2` (the other four functions) always suffices -/
 theorem total_aux : ∀ f : Nat,
-    (∀ it : Iter, 2 * it.rest.length + 3 ≤ f → Good it.rest.length (parseValue ops f it)) ∧
-    (∀ it : Iter, 2 * it.rest.length + 2 ≤ f → Good it.rest.length (parseArray ops f it)) ∧
-    (∀ (it : Iter) acc, 2 * it.rest.length + 2 ≤ f → Good it.rest.length (parseArrayRest ops f it acc)) ∧
-    (∀ it : Iter, 2 * it.rest.length + 2 ≤ f → Good it.rest.length (parseObject ops f it)) ∧
-    (∀ (it : Iter) acc, 2 * it.rest.length + 2 ≤ f → Good it.rest.length (parseObjectLoop ops f it acc)) := by
+    (∀ (d : Nat) (it : Iter), 2 * it.rest.length + 3 ≤ f → Good it.rest.length (parseValue ops f d it)) ∧
+    (∀ (d : Nat) (it : Iter), 2 * it.rest.length + 2 ≤ f → Good it.rest.length (parseArray ops f d it)) ∧
+    (∀ (d : Nat) (it : Iter) acc, 2 * it.rest.length + 2 ≤ f → Good it.rest.length (parseArrayRest ops f d it acc)) ∧
+    (∀ (d : Nat) (it : Iter), 2 * it.rest.length + 2 ≤ f → Good it.rest.length (parseObject ops f d it)) ∧
+    (∀ (d : Nat) (it : Iter) acc, 2 * it.rest.length + 2 ≤ f → Good it.rest.length (parseObjectLoop ops f d it acc)) := by
   intro f
   induction f with
   | zero => refine ⟨?_, ?_, ?_, ?_, ?_⟩ <;> (intros; omega)
@@ -238,7 +238,7 @@ theorem total_aux : ∀ f : Nat,
     obtain ⟨ihV, ihA, ihR, ihO, ihL⟩ := ih
     refine ⟨?_, ?_, ?_, ?_, ?_⟩
     · -- parseValue
-      intro it hf
+      intro d it hf
       have hs := skipWs_len it
       simp only [parseValue]
       cases hr : (skipWs it).rest with
@@ -246,9 +246,13 @@ theorem total_aux : ∀ f : Nat,
       | cons b r =>
         simp only
         split
-        · exact (ihA (skipWs it) (by omega)).mono hs
+        · split
+          · trivial
+          · exact (ihA (d + 1) (skipWs it) (by omega)).mono hs
         split
-        · exact (ihO (skipWs it) (by omega)).mono hs
+        · split
+          · trivial
+          · exact (ihO (d + 1) (skipWs it) (by omega)).mono hs
         split
         · apply Good.mono _ hs; apply Good.map; exact good_parseQuotedString _; intro _; rfl
         split
@@ -261,7 +265,7 @@ theorem total_aux : ∀ f : Nat,
         · exact (good_parseTag (skipWs it) bN _).mono hs
         · trivial
     · -- parseArray
-      intro it hf
+      intro d it hf
       have hs := skipWs_len it
       simp only [parseArray]
       have hpos : (skipWs it).rest = [] ∨ 1 ≤ it.rest.length := by
@@ -278,12 +282,12 @@ theorem total_aux : ∀ f : Nat,
       · have hs2 := skipWs_len it1
         split
         · simp only [Good]; have := advance_len (skipWs it1); omega
-        · apply Good.bind (n := it.rest.length - 1) ((ihV (skipWs it1) (by omega)).mono (by omega))
+        · apply Good.bind (n := it.rest.length - 1) ((ihV d (skipWs it1) (by omega)).mono (by omega))
           intro v it3 h3
           dsimp only
-          apply Good.mono (n := it3.rest.length) _ (by omega); apply Good.map; exact ihR it3 [v] (by omega); intro _; rfl
+          apply Good.mono (n := it3.rest.length) _ (by omega); apply Good.map; exact ihR d it3 [v] (by omega); intro _; rfl
     · -- parseArrayRest
-      intro it acc hf
+      intro d it acc hf
       have hs := skipWs_len it
       simp only [parseArrayRest]
       have hpos : (skipWs it).rest = [] ∨ 1 ≤ it.rest.length := by
@@ -299,13 +303,13 @@ theorem total_aux : ∀ f : Nat,
       · simp only [Good]; omega
       · split
         · have hs2 := skipWs_len it1
-          apply Good.bind (n := it.rest.length - 1) ((ihV (skipWs it1) (by omega)).mono (by omega))
+          apply Good.bind (n := it.rest.length - 1) ((ihV d (skipWs it1) (by omega)).mono (by omega))
           intro v it3 h3
           dsimp only
-          exact (ihR it3 _ (by omega)).mono (by omega)
+          exact (ihR d it3 _ (by omega)).mono (by omega)
         · trivial
     · -- parseObject
-      intro it hf
+      intro d it hf
       have hs := skipWs_len it
       simp only [parseObject]
       have hpos : (skipWs it).rest = [] ∨ 1 ≤ it.rest.length := by
@@ -319,9 +323,9 @@ theorem total_aux : ∀ f : Nat,
       dsimp only
       split
       · trivial
-      · apply Good.mono (n := it1.rest.length) _ (by omega); apply Good.map; exact ihL it1 [] (by omega); intro _; rfl
+      · apply Good.mono (n := it1.rest.length) _ (by omega); apply Good.map; exact ihL d it1 [] (by omega); intro _; rfl
     · -- parseObjectLoop
-      intro it acc hf
+      intro d it acc hf
       have hs := skipWs_len it
       simp only [parseObjectLoop]
       cases hr : (skipWs it).rest with
@@ -342,15 +346,15 @@ theorem total_aux : ∀ f : Nat,
             split
             · trivial
             · have hs4 := skipWs_len it3
-              apply Good.bind (n := it.rest.length - 1) ((ihV (skipWs it3) (by omega)).mono (by omega))
+              apply Good.bind (n := it.rest.length - 1) ((ihV d (skipWs it3) (by omega)).mono (by omega))
               intro v it5 h5
               dsimp only
               have hs6 := skipWs_len it5
               apply Good.bind (n := it.rest.length - 2) (good_expectNext (skipWs it5) _ (by omega))
-              intro d it7 h7
+              intro d2 it7 h7
               dsimp only
               split
-              · exact (ihL it7 _ (by omega)).mono (by omega)
+              · exact (ihL d it7 _ (by omega)).mono (by omega)
               · split
                 · simp only [Good]; omega
                 · trivial
@@ -359,15 +363,15 @@ theorem total_aux : ∀ f : Nat,
 /-- `parse_json_str` as modelled is total: the fuel `2·|input| + 4` never runs out, for any input -/
 theorem parseBytes_total (input : Bytes) : parseBytes ops input ≠ .fuel := by
   unfold parseBytes
-  have := (total_aux ops (fuelFor input)).1 (Iter.start input) (by simp [Iter.start, fuelFor])
+  have := (total_aux ops (fuelFor input)).1 0 (Iter.start input) (by simp [Iter.start, fuelFor])
   revert this
-  cases parseValue ops (fuelFor input) (Iter.start input) <;> simp [Good, Res.map]
+  cases parseValue ops (fuelFor input) 0 (Iter.start input) <;> simp [Good, Res.map]
 
 /-- … and (since a22a8569) it never panics: every byte string is answered with `ok` or `err` -/
 theorem parseBytes_no_panic (input : Bytes) (s : String) : parseBytes ops input ≠ .panic s := by
   unfold parseBytes
-  have := (total_aux ops (fuelFor input)).1 (Iter.start input) (by simp [Iter.start, fuelFor])
+  have := (total_aux ops (fuelFor input)).1 0 (Iter.start input) (by simp [Iter.start, fuelFor])
   revert this
-  cases parseValue ops (fuelFor input) (Iter.start input) <;> simp [Good, Res.map]
+  cases parseValue ops (fuelFor input) 0 (Iter.start input) <;> simp [Good, Res.map]
 
 end VtProofs.Json
